@@ -95,3 +95,60 @@ def lazily_raised(sx, proto):
         return code_ok and b'lazy fault' in out and not status[0].startswith('200')
     server_code = b'Receiver' if proto == 'soap12' else b'Server'        # SOAP 1.2 spells the Server family 'Receiver'
     return status[0].startswith('500') and b'Internal Error' in out and (server_code in out) and b'InternalError' not in out
+
+
+# ---------------------------------------------------------------- fault detail in the XML family, SOAP 1.2 included
+DET = {}
+
+
+class DetailSvc(Service):
+    @rpc(Integer, _returns=Integer)
+    def fail(ctx, n):
+        raise Fault(DET['code'], u'custom message', detail=DET['detail'])
+
+
+DETAIL_APPS = {}
+DETAILS = {'none': None, 'empty': {}, 'one key': {'why': {'k': 'v'}}, 'two keys': {'first': {'k': 'v', 'zero': 0, 'no': False}, 'second': 'w'},
+           'three flat keys': {'a': 'x', 'b': 'y', 'c': 'z'}}
+
+
+@harness('C09', params=['xml', 'soap11', 'soap12'], functions=['spyne.protocol.xml.XmlDocument._fault_to_parent_impl',
+                                                              'spyne.protocol.soap.soap12.Soap12._fault_to_parent_impl',
+                                                              'spyne.util.etreeconv.root_dict_to_etree'],
+         bounds={'fault': 'Client or Server family code with a sub-code; detail: none, empty, one nested key, two keys with falsy '
+                          'leaves, three flat keys; chunked or not'})
+def xml_fault_detail(sx, proto):
+    """a raised Fault arrives with its code family, message and every leaf of its detail, whatever the shape of the detail
+    dict, in XmlDocument, SOAP 1.1 and SOAP 1.2"""
+    import io
+    shape = sx.choose('detail', sorted(DETAILS))
+    DET['code'] = sx.choose('code', ['Client.Custom.Sub', 'Server.Custom'])
+    DET['detail'] = DETAILS[shape]
+    chunked = sx.choose('chunked', [True, False])
+    if proto not in DETAIL_APPS:
+        Pc = {'xml': XmlDocument, 'soap11': Soap11, 'soap12': Soap12}[proto]
+        DETAIL_APPS[proto] = Application([DetailSvc], 'tns', in_protocol=Pc(), out_protocol=Pc())
+    body, ctype = {'xml': (b'<fail xmlns="tns"><n>1</n></fail>', 'text/xml'),
+                   'soap11': (('<s:Envelope xmlns:s="%s"><s:Body><fail xmlns="tns"><n>1</n></fail></s:Body></s:Envelope>' % P.SOAP_ENV).encode(), 'text/xml'),
+                   'soap12': (b'<s:Envelope xmlns:s="http://www.w3.org/2003/05/soap-envelope"><s:Body><fail xmlns="tns"><n>1</n></fail></s:Body></s:Envelope>',
+                              'application/soap+xml')}[proto]
+    environ = {'REQUEST_METHOD': 'POST', 'PATH_INFO': '/', 'QUERY_STRING': '', 'SERVER_NAME': 'localhost', 'SERVER_PORT': '80',
+               'wsgi.url_scheme': 'http', 'wsgi.input': io.BytesIO(body), 'CONTENT_LENGTH': str(len(body)), 'CONTENT_TYPE': ctype}
+    status = []
+    out = b''.join(WsgiApplication(DETAIL_APPS[proto], chunked=chunked)(environ, lambda s, h, e=None: status.append(s)))
+    sx.observe('body', out[-300:])
+    family = DET['code'].split('.')[0].encode()
+    if proto == 'soap12':
+        family = {b'Client': b'Sender', b'Server': b'Receiver'}[family]
+    ok = family in out and b'custom message' in out and b'Internal Error' not in out
+
+    def leaves(d):
+        for k, v in (d or {}).items():
+            if isinstance(v, dict):
+                for x in leaves(v):
+                    yield x
+            else:
+                yield k, v
+    for k, v in leaves(DETAILS[shape]):
+        ok = ok and ('<%s>%s</%s>' % (k, v, k)).encode() in out
+    return bool(ok)
